@@ -24,7 +24,7 @@ MS = "verde.model_selection"
 CV, FS, SEL, TTS = MS + ".cross_val_score", MS + ".fit_score", MS + ".select", MS + ".train_test_split"
 SE = "verde.base.utils.score_estimator"
 SC = "verde.spline.SplineCV"
-CFI = ("call", ("glob", "verde.base.utils.check_fit_input"), (("param", "coordinates"), ("param", "data"), ("param", "weights")), (("unpack", const(False)),), 0)
+CFI = ("call", ("glob", "verde.base.utils.check_fit_input"), (("param", "coordinates"), ("param", "data"), ("param", "weights"), const(False)), (), 0)   # canonical (all positional)
 
 
 def split_label(t):
@@ -272,19 +272,20 @@ def r6_r7_splinecv(ctx):
                 continue
             t = e.data[0]
             if callee(t) == MS + ".cross_val_score":
-                cvs.append((t, t[2], dict((k, v) for k, v in t[3] if k)))
+                cvs.append(t)
             elif callee(t) == ".submit" and t[2] and t[2][0] == ("glob", MS + ".cross_val_score"):
-                cvs.append((t, t[2][1:], dict((k, v) for k, v in t[3] if k)))
+                cvs.append(("call", t[2][0], t[2][1:], t[3], 0))        # client.submit(f, *a, **k) computes f(*a, **k)
         if len(cvs) != 1:
             ctx.add("R7", "%s|one-cross_val_score|%s" % (qn, tag), "UNDECIDED", "expected one cross_val_score call on the path (found %d)" % len(cvs), fn=qn)
             continue
-        t, pos, kws = cvs[0]
+        t = cvs[0]
         for nm, want in (("weights", ("param", "weights")), ("cv", Q.self_attr("cv")), ("scoring", Q.self_attr("scoring")), ("coordinates", ("param", "coordinates")), ("data", ("param", "data"))):
-            v = kws.get(nm)
-            ok = True if v == want else (False if v is None or is_const(v) or v[0] == "param" or Q.is_self_attr(v) else None)
+            v = Q.arg(ctx, t, nm)
+            ok = True if v == want else (None if v == "unknown" else (False if v is None or is_const(v) or v[0] == "param" or Q.is_self_attr(v) else None))
             ctx.check("R7", "%s|forwards-%s|%s" % (qn, nm, tag), ok, "cross_val_score receives %s=%s" % (nm, show(want)),
                       bad="cross_val_score %s" % ("is called without %s: candidates are ranked with a different %s than requested" % (nm, nm) if v is None else "receives %s=%s" % (nm, show(v))), fn=qn)
-        est = pos[0] if pos else None
+        est = Q.arg(ctx, t, "estimator")
+        est = est if isinstance(est, tuple) else None
         ps_loop = [e for e in p.events if e.kind == "loop-enter" and e.data[1][0] == "comp"]
         psets = ps_loop[0].data[1] if ps_loop else None
         ok = None
